@@ -132,7 +132,7 @@ def run(ctx, rep):
     from rules import c16
     c16.eof_distinct(rep, lib)
     c16.no_drop(rep, lib)
-    c06_shared.recover(rep, lib)
+    c06_shared.recover(rep, lib, require_recoverable=True)
 
 
 def _ops(rv):
